@@ -436,3 +436,20 @@ contract("specs.ldapmsg:thm_rt_ext_match",
          ensures=["opt_none(%s, 1, True) == (not has_rule)" % _XM, "implies(has_rule, opt_val(%s, 1, empty()) == rule_b)" % _XM,
                   "opt_none(%s, 2, True) == (not has_type)" % _XM, "implies(has_type, opt_val(%s, 2, empty()) == type_b)" % _XM,
                   "opt_val(%s, 3, empty()) == val" % _XM, "opt_bool(%s, 4, False) == dn" % _XM])
+contract("specs.ldapmsg:lemma_sel_skip",
+         requires=["tlv_of(e, 2, False, num_e, content)", "num_e != num"],
+         ensures=["sel_list(cat(e, tail), num, acc) == sel_list(tail, num, acc)"])
+contract("specs.ldapmsg:lemma_sel_run",
+         requires=["octs_enc(s, xs, i, n, 2, num)", "0 <= i", "i <= n", "n <= len(xs)"],
+         ensures=["sel_list(cat(s, tail), num, acc) == sel_list(tail, num, cat_list(acc, slice_list(xs, i, n)))"],
+         decreases="n - i")
+contract("specs.ldapmsg:lemma_fold_skip_run",
+         requires=["octs_enc(s, xs, i, n, 2, num_run)", "0 <= i", "i <= n", "n <= len(xs)", "num_run != num"],
+         ensures=["opt_none(cat(s, tail), num, acc_none) == opt_none(tail, num, acc_none)", "opt_val(cat(s, tail), num, acc) == opt_val(tail, num, acc)"],
+         decreases="n - i")
+_SS = "cat(ite(has_init, e_init, empty()), c_any, ite(has_final, e_final, empty()))"
+contract("specs.ldapmsg:thm_rt_substrings",
+         requires=["implies(has_init, tlv_of(e_init, 2, False, 0, init))", "octs_enc(c_any, xs, 0, len(xs), 2, 1)", "implies(has_final, tlv_of(e_final, 2, False, 2, final))"],
+         ensures=["opt_none(%s, 0, True) == (not has_init)" % _SS, "implies(has_init, opt_val(%s, 0, empty()) == init)" % _SS,
+                  "opt_none(%s, 2, True) == (not has_final)" % _SS, "implies(has_final, opt_val(%s, 2, empty()) == final)" % _SS,
+                  "sel_list(%s, 1, nil_bytes()) == xs" % _SS])
